@@ -91,10 +91,47 @@ class BufW:
         self.pending = []
 
 
+class OpenOpts:
+    def __init__(self):
+        self.flags = {}
+
+
+@model("std::fs::OpenOptions::new")
+def _oo_new(I, f, a):
+    return OpenOpts()
+
+
+@M.model_re(r"^(std::fs::OpenOptions::(write|create|truncate|append|read|create_new)|<std::fs::OpenOptions as std::os::unix::fs::OpenOptionsExt>::(mode|custom_flags)|std::os::unix::fs::OpenOptionsExt::(mode|custom_flags))$")
+def _oo_set(I, f, a):
+    o = M.deref(I, a[0])
+    name = (f.get("path") or "").split("::")[-1]
+    if isinstance(o, OpenOpts):
+        v = a[1]
+        o.flags[name] = v.as_bool(I) if hasattr(v, "as_bool") else v
+    return a[0]
+
+
+@model("std::fs::OpenOptions::open")
+def _oo_open(I, f, a):
+    o = M.deref(I, a[0])
+    p = M.deref(I, a[1])
+    if not I.run.choose(2, "File::create ok"):
+        I.run.event("fs_open_failed", p)
+        return err(Opaque("io::Error"))
+    fo = FileObj(p)
+    fl = o.flags if isinstance(o, OpenOpts) else {}
+    fo.keeps_old_content = bool(fl.get("write")) and not fl.get("truncate") and not fl.get("create_new")
+    fo.appends = bool(fl.get("append"))
+    return ok(fo)
+
+
 @model("std::fs::File::create")
 def _file_create(I, f, a):
     p = M.deref(I, a[0])
-    return ok(FileObj(p)) if I.run.choose(2, "File::create ok") else err(Opaque("io::Error"))
+    if I.run.choose(2, "File::create ok"):
+        return ok(FileObj(p))
+    I.run.event("fs_open_failed", p)
+    return err(Opaque("io::Error"))
 
 
 @model("std::io::BufWriter::<W>::new", "std::io::BufWriter::<W>::with_capacity")
@@ -112,6 +149,8 @@ def _write_all(I, f, a):
         w.pending.append(data)
         return ok(unit())
     if isinstance(w, FileObj):
+        if getattr(w, "keeps_old_content", False) or getattr(w, "appends", False):
+            I.run.event("fs_write_over_old_content", w.path, data)
         I.run.event("fs_write", w.path, data)
         return ok(unit()) if I.run.choose(2, "fs::write ok") else err(Opaque("io::Error"))
     raise I.unanalysable("write_all on %r" % type(w).__name__)
@@ -515,7 +554,7 @@ def rule_C13(env):
     nleaves = cli_flag_checks(env, res, "R13.a")
     res.floor("R13.a", 20, "generate() call snapshots")
     # inertness of the one conditionally forwarded setting
-    bad = [k for k in rate_is_inert_without_mutators(env.prog) if not rate_inert_semantically(env, k)]
+    bad = [k for k in rate_is_inert_without_mutators(env.prog) if not rate_inert_semantically(env, re.sub(r"::\{closure#\d+\}.*$", "", k))]
     for k in bad:
         res.add("R13.a", "inert/mutation_rate/%s" % k.split("::")[-1], "%s reads mutation_rate on a path where no mutator is registered: --mutation-rate must then be forwarded unconditionally" % k, env.loc(k))
     samples = []
@@ -533,12 +572,20 @@ def rule_C13(env):
                     if bw.pending:
                         res.add("R13.d", "%s/unflushed-buffer" % mode, "%s mode hands the bytes to a BufWriter that is dropped without flush(): a failing write is "
                                 "discarded in Drop, the run reports success with an empty or truncated file" % mode, "src/main.rs")
+                if any(e[0] == "fs_write_over_old_content" for e in evs):
+                    res.add("R13.d", "%s/file-not-truncated" % mode, "%s mode opens the output without truncate(true) (or in append mode): if the file "
+                            "exists and is longer, its old tail stays after the pickle - the file is not the bytes the library returned" % mode, "src/main.rs")
                 writes = [e for e in evs if e[0] == "fs_write"]
                 gens = [s for s in lf["snaps"]]
                 ret_ok = getattr(lf["ret"], "vname", None) == "Ok"
+                open_failed = any(e[0] == "fs_open_failed" for e in evs)
                 if mode == "file":
                     for g, b in gens:
                         if b is not None:
+                            if open_failed and not writes:
+                                if ret_ok:
+                                    res.add("R13.d", "file/error-swallowed", "single-file mode returns Ok although the output file could not be opened", "src/main.rs")
+                                continue
                             if len(writes) != 1 or not (isinstance(writes[0][1], PathObj) and writes[0][1].base == "FILE" and not writes[0][1].parts) or writes[0][2] is not b:
                                 res.add("R13.d", "file/write", "single-file mode does not write exactly the generated bytes to FILE (%r)" % (writes,), "src/main.rs")
                         elif ret_ok:
@@ -559,6 +606,8 @@ def rule_C13(env):
                             if b is None:
                                 continue
                             w = [e for e in writes if e[2] is b]
+                            if not w and open_failed:
+                                continue      # the sample's file could not be opened: accounted for by the error rules below
                             if len(w) != 1:
                                 res.add("R13.d", "batch/write-count", "batch mode writes the bytes of one sample %d times" % len(w), "src/main.rs")
                                 continue
@@ -570,7 +619,7 @@ def rule_C13(env):
                             if not okp:
                                 res.add("R13.d", "batch/file-name", "batch mode writes sample idx to %r, expected DIR/<idx>.pkl" % (p,), "src/main.rs")
                     errs = [e for e in evs if e[0] == "par_error"]
-                    failed = any(b is None for g, b in gens) or any(lab == "fs::write ok" and c == 0 for lab, c in zip(lf["run"].labels, lf["run"].script))
+                    failed = any(b is None for g, b in gens) or open_failed or any(lab == "fs::write ok" and c == 0 for lab, c in zip(lf["run"].labels, lf["run"].script))
                     if failed and ret_ok:
                         res.add("R13.d", "batch/error-swallowed", "batch mode exits 0 although a sample could not be generated or written", "src/main.rs")
                     if errs and ret_ok:
